@@ -24,8 +24,25 @@ func runC12() {
 	var evals, refused, accepted, followups, views int64
 	perTopic := map[string]int64{}
 	outcomes := map[string]int64{}
-	for _, last := range lasts {
+	type viewSpec struct {
+		last uint64
+		agg  bool
+	}
+	var specs []viewSpec
+	for _, l := range lasts {
+		specs = append(specs, viewSpec{l, false})
+	}
+	// committees and sync subcommittees of 32: aggregator selection (modulo 2) really selects
+	specs = append(specs, viewSpec{10, true})
+	if run.Tier == "thorough" {
+		specs = append(specs, viewSpec{18, true})
+	}
+	for _, vs := range specs {
+		last := vs.last
 		w := chainh.NewWorld(chainh.T4(chainh.AllForks), 1, 24)
+		if vs.agg {
+			w = chainh.NewWorld(chainh.TAgg(chainh.AllForks), 1, 130)
+		}
 		std, err := chainh.BuildStd(w, last)
 		if err != nil {
 			fmt.Fprintf(os.Stderr, "C12: cannot build the chain view (last=%d): %v\n", last, err)
@@ -47,13 +64,13 @@ func runC12() {
 			cases = append(cases, std.AggregateCases()...)
 			cases = append(cases, std.OperationCases()...)
 			cases = append(cases, std.SyncCases()...)
-			fmt.Fprintf(os.Stderr, "C12 view last=%d head=%s fin-epoch=%d: %d cases\n", last, headKind, std.V.Fin.Epoch, len(cases))
+			fmt.Fprintf(os.Stderr, "C12 view preset=%s last=%d head=%s fin-epoch=%d: %d cases\n", w.P.Name, last, headKind, std.V.Fin.Epoch, len(cases))
 			for _, cs := range cases {
 				v := std.V.Session(cs.NowSlot, cs.OffsetMs)
 				for _, k := range cs.Premark {
 					v.Seen[k] = true
 				}
-				id := fmt.Sprintf("last=%d/head=%s/%s/%s", last, headKind, cs.Topic, cs.Name)
+				id := fmt.Sprintf("%s/last=%d/head=%s/%s/%s", w.P.Name, last, headKind, cs.Topic, cs.Name)
 				sigBase := "C12/" + cs.Topic + "/" + cs.Name
 				if i := strings.Index(cs.Name, "clock sweep:"); i >= 0 {
 					// one root cause = one report: all clock positions of a sweep share a signature per (expected, got)
